@@ -30,39 +30,40 @@ Proof. exact rebuild_order. Qed.
    of combined / free-parameter analyses are copies made by `subsamples`.  From a summary whose path cache is empty or
    that of its own model, every summary reached by reads and by making children (any order, any depth) is again so. *)
 From PAFC12 Require Import Session.
-Theorem C12_summary_cache_coherent : forall (V : Type) (bin : binop -> V -> V -> V) (ops : list (op V)) (s s' : summary V),
-  coherent V s -> run V bin ops s = Some s' -> coherent V s'.
+Theorem C12_summary_cache_coherent : forall (V : Type) (bin : binop -> V -> V -> V) (resets : bool) (ops : list (op V))
+    (s s' : summary V),
+  coherent V s -> run V bin resets ops s = Some s' -> coherent V s'.
 Proof. exact run_coherent. Qed.
 
 (* whatever was read from the parent before its child is made and from the child afterwards, the child answers with the
    best-fit vector and the prior means of the child made first thing from the untouched parent: prior passing from a
    child result does not depend on the history of the result objects *)
-Theorem C12_summary_history_irrelevant : forall (V : Type) (bin : binop -> V -> V -> V) (s : summary V)
+Theorem C12_summary_history_irrelevant : forall (V : Type) (bin : binop -> V -> V -> V) (resets : bool) (s : summary V)
     (before : list (op V)) (child : node V) (after : list (op V)) (c c0 : summary V),
   coherent V s -> Forall (is_read V) before -> Forall (is_read V) after ->
-  run V bin (before ++ OSub V child :: after) s = Some c -> subsamples V s child = Some c0 ->
+  run V bin resets (before ++ OSub V child :: after) s = Some c -> subsamples V resets s child = Some c0 ->
   sm_model V c = child /\ max_vector V c = max_vector V c0 /\ means_vector V c = means_vector V c0.
 Proof. exact history_irrelevant. Qed.
 
-(* the child's instance is the child model at the child's own vector - when no instance was cached before the child
-   was made (partial: `subsamples` does not reset `_instance`); the full statement is refuted by a witness *)
-Theorem C12_child_instance_own_partial : forall (V : Type) (bin : binop -> V -> V -> V) (s : summary V)
+(* the child's instance is the child model at the child's own vector (full, for the code since 4da3fbc: `subsamples`
+   resets `_instance`): whatever was done with the parent before - instance reads included - and read from the child
+   afterwards.  Before the repair the copy kept the parent's instance: legacy witness below. *)
+Theorem C12_child_instance_own : forall (V : Type) (bin : binop -> V -> V -> V) (s : summary V)
     (before : list (op V)) (child : node V) (after : list (op V)) (c : summary V),
-  coherent V s -> sm_inst V s = None -> Forall (is_vector_read V) before -> Forall (is_vector_read V) after ->
-  run V bin (before ++ OSub V child :: after) s = Some c ->
+  Forall (is_read V) after -> run V bin true (before ++ OSub V child :: after) s = Some c ->
   instance_value V bin c = option_map (inst_from_vector V bin child) (max_vector V c) /\ sm_model V c = child.
-Proof. exact child_instance_own. Qed.
+Proof. exact (fun V bin => child_instance_own V bin true eq_refl). Qed.
 
-Theorem C12_child_instance_own_refuted :
+Theorem C12_child_instance_own_legacy_refuted :
   exists (s : summary nat) (before : list (op nat)) (child : node nat) (after : list (op nat)) (c : summary nat),
     coherent nat s /\ sm_inst nat s = None /\ Forall (is_read nat) before /\ Forall (is_read nat) after /\
-    run nat wit_bin (before ++ OSub nat child :: after) s = Some c /\
+    run nat wit_bin false (before ++ OSub nat child :: after) s = Some c /\
     instance_value nat wit_bin c <> option_map (inst_from_vector nat wit_bin child) (max_vector nat c).
-Proof. exact child_instance_refuted. Qed.
+Proof. exact child_instance_legacy_refuted. Qed.
 Print Assumptions C12_summary_cache_coherent.
 Print Assumptions C12_summary_history_irrelevant.
-Print Assumptions C12_child_instance_own_partial.
-Print Assumptions C12_child_instance_own_refuted.
+Print Assumptions C12_child_instance_own.
+Print Assumptions C12_child_instance_own_legacy_refuted.
 
 (* sharing: two places hold one prior afterwards iff they did before *)
 Theorem C12_sharing : forall (V : Type) (sigma : nat -> option nat) (n n' : node V),
